@@ -105,12 +105,13 @@ func (m *MmsTables) execMergeContext(ctx *MergeContext) {
 
 	defer func() {
 		tool.Release()
-		if m.compactRecovery {
-			MergeRecovery(m.path, ctx.mst, ctx)
-		}
 		stat.AddActive(-1)
 		logEnd()
 	}()
+	if m.compactRecovery {
+		// recover() only stops a panic when the deferred function itself calls it: MergeRecovery must be the deferred call
+		defer MergeRecovery(m.path, ctx.mst, ctx)
+	}
 
 	tool.initStat(ctx.mst, ctx.shId)
 	if ctx.MergeSelf() {
